@@ -74,7 +74,7 @@ def expr_for(rng: random.Random, value: int, names: Dict[str, int], dollar: Opti
     if dollar is not None:
         choices += ['dollar', 'dollar']
     if depth > 0:
-        choices += ['split', 'tern', 'shift']
+        choices += ['split', 'tern', 'shift', 'div']
     kind = rng.choice(choices)
     if kind == 'lit' or depth < 0:
         return lit(rng, value)
@@ -82,6 +82,11 @@ def expr_for(rng: random.Random, value: int, names: Dict[str, int], dollar: Opti
         assert dollar is not None
         d = value - dollar
         return '$' if d == 0 else (f'$ + {lit(rng, d)}' if d > 0 else f'$ - {lit(rng, -d)}')
+    if kind == 'div':
+        # floor division of integers of any size (a quotient computed through a float is off beyond 53 bits, and for negatives)
+        k = rng.choice([2, 3, 7, 10, 1 << 20])
+        rem = rng.randrange(k)
+        return f'({lit(rng, value * k + rem)}) / {k}' if value >= 0 else lit(rng, value)
     if kind == 'logic':
         # the logical operators normalise to 0 / 1 whatever their (symbolic) operand is worth
         name = rng.choice(sorted(names))
@@ -342,6 +347,10 @@ def generate(rng: random.Random, w: Optional[int] = None, n_statements: Optional
             form = st['form']
             f_val = some_address() if 'f' in form else 0
             j_val = some_target() if 'j' in form else dollar
+            if 'j' in form and rng.random() < 0.03:
+                j_val = st['addr'] + w      # an op that jumps into its own jump word (relative jump 0 in versions 2/3)
+                if rng.random() < 0.5 and 'f' in form:
+                    f_val = 0
             if flaw == 'word-out-of-range' and not model.impossible and 'j' in form and i >= flaw_at:
                 # a word that does not fit w bits: negative, or 2^w and above (no version of the file format can hold it)
                 j_val = rng.choice([-1, -rng.randrange(1, 1 << 12) * w, 1 << w, (1 << w) + rng.randrange(0, 1 << 12) * w, -(1 << w)])
